@@ -371,6 +371,32 @@ def closed_forms(ctx):
         except Uninterpreted:
             ok = False
     ctx.ob("R15.3", "Arc.length[circle]", ok, ast.unparse(circ.body[0]) if circ is not None else "circle test not found", al.lineno, "a circular arc has length |r x sweep|")
+    # shortcuts: a result that is not computed from the radii and the sweep (the chord, a constant) is the length of a
+    # zero-extent arc only.  Coincident end points do not make an arc empty: start == end with a non-zero sweep is a full turn.
+    from ..flow import dominated
+
+    def zero_sweep(test, positive):
+        if isinstance(test, ast.Compare) and len(test.ops) == 1 and isinstance(test.ops[0], (ast.Eq, ast.NotEq)):
+            sides = [test.left, test.comparators[0]]
+            if any(attr_chain(x) == ["self", "sweep"] for x in sides) and any(isinstance(x, ast.Constant) and x.value == 0 and not isinstance(x.value, bool) for x in sides):
+                return isinstance(test.ops[0], ast.Eq) == positive
+        if attr_chain(test) == ["self", "sweep"]:
+            return not positive  # `if not self.sweep`
+        return False
+
+    nshort = 0
+    for r in ast.walk(al):
+        if not isinstance(r, ast.Return) or r.value is None:
+            continue
+        uses_extent = any(attr_chain(x) in (["self", "sweep"], ["self", "rx"], ["self", "ry"]) for x in ast.walk(r.value)) or \
+            any(isinstance(x, ast.Name) and x.id in alg.env for x in ast.walk(r.value)) or \
+            any(isinstance(x, ast.Call) and isinstance(x.func, ast.Attribute) and isinstance(x.func.value, ast.Name) and x.func.value.id == "self" for x in ast.walk(r.value))
+        if uses_extent:
+            continue
+        nshort += 1
+        ok = dominated(r, al, zero_sweep)
+        ctx.ob("R15.3", "Arc.length[shortcut `%s` only for zero sweep]" % ast.unparse(r.value)[:40], ok, "returns %s" % ast.unparse(r.value)[:50], r.lineno,
+               "the chord (or 0) is the length of an arc of zero extent only; an arc whose end points coincide but whose sweep is not zero is a full turn of the ellipse")
     # quadratic closed form
     q = ctx.fn("QuadraticBezier.length", "R15.3")
     pts = {"self.start": [atom("x0"), atom("y0")], "self.control": [atom("x1"), atom("y1")], "self.end": [atom("x2"), atom("y2")]}
